@@ -61,7 +61,14 @@ def _initialize_window_functions():
 
         if not ("M" in sig.parameters and "sym" in sig.parameters):
             continue
-        elif len(sig.parameters) > 2:
+        elif any(
+            name not in ("M", "sym") and param.kind is not param.KEYWORD_ONLY
+            for name, param in sig.parameters.items()
+        ):
+            # Window functions that require additional arguments are not
+            # supported. However, newer versions of SciPy have added optional
+            # keyword-only parameters (e.g., 'xp' and 'device') to all of
+            # the window functions and those can be ignored.
             continue
 
         _WINDOW_FUNCTIONS[name] = func
